@@ -351,3 +351,235 @@ def gen_graph(rng, nenv, depth=2, merge_false=5, keys=KEYS, valgen=None):
 def case_from_graph(envs, root):
     return {"name": root, "def": envs[root],
             "envs": {n: {"kind": "def", "def": d} for n, d in envs.items() if n != root}}
+
+
+# ---- rich programs: providers, secrets, ciphertexts, imports ----------------------------------------------
+import base64 as _b64
+import struct as _struct
+import zlib as _zlib
+
+CLOSED_OK = False  # closed records: re-enable once the silent-rejection defect of `false` subschemas (C08-false) is fixed
+RSTRS = ["", "x", "hello", "a b", "us-west-2", "tok3n"]
+
+
+def envelope_repr(ct):
+    body = b"escx" + _struct.pack(">I", 1) + ct
+    return _b64.b64encode(body + _struct.pack(">I", _zlib.crc32(body) & 0xFFFFFFFF)).decode()
+
+
+def xspec(v, sec=False, unk=False):
+    """python value -> value spec dict used for provider constants / context values"""
+    if isinstance(v, dict) and set(v.keys()) == {"s", "u", "v"}:
+        return v
+    if isinstance(v, dict):
+        return {"s": sec, "u": unk, "v": {"o": {k: xspec(x) for k, x in v.items()}}}
+    if isinstance(v, list):
+        return {"s": sec, "u": unk, "v": [xspec(x) for x in v]}
+    if isinstance(v, tuple) and v[0] == "num":
+        return {"s": sec, "u": unk, "v": {"n": v[1]}}
+    return {"s": sec, "u": unk, "v": v}
+
+
+def out_schema_of(spec):
+    """closed record/tuple/scalar schema that a constant provider output satisfies exactly"""
+    x = spec["v"]
+    if x is None:
+        return "null"
+    if isinstance(x, bool):
+        return "boolean"
+    if isinstance(x, str):
+        return "string"
+    if isinstance(x, list):
+        return {"t": "array", "prefix": [out_schema_of(e) for e in x], "items": "never"}
+    if "n" in x:
+        return "number"
+    return {"t": "object", "props": {k: out_schema_of(e) for k, e in x["o"].items()}, "required": sorted(x["o"].keys()),
+            "addl": "never"}
+
+
+def gen_const_output(rng, depth=2, secret_mode=None):
+    """provider output with the secret flag placed top-level only / nested only / mixed / nowhere"""
+    secret_mode = secret_mode if secret_mode is not None else rng.below(4)
+
+    def go(d, top):
+        k = rng.below(6)
+        if d <= 0 or k < 3:
+            v = rng.choice(["s3cr3t-" + str(rng.below(100)), ("num", str(rng.below(50))), True, None, "plain"])
+            sec = (secret_mode == 1 and rng.chance(1, 2)) or (secret_mode == 2 and rng.chance(1, 3))
+            return xspec(v, sec=sec)
+        if k < 5:
+            n = 1 + rng.below(3)
+            m = {kk: go(d - 1, False) for kk in rng.shuffle(["user", "pass", "tok", "a"])[:n]}
+            sec = (secret_mode == 0 and top) or (secret_mode == 2 and rng.chance(1, 4))
+            return {"s": sec, "u": False, "v": {"o": m}}
+        sec = (secret_mode == 0 and top)
+        return {"s": sec, "u": False, "v": [go(d - 1, False) for _ in range(1 + rng.below(2))]}
+
+    out = go(depth, True)
+    if "o" not in (out["v"] if isinstance(out["v"], dict) else {}):
+        out = {"s": secret_mode == 0, "u": False, "v": {"o": {"val": out}}}
+    return out
+
+
+class RichGen:
+    """generates a world (root + imports) whose values mix literals, references, built-ins, secrets and fn::open"""
+
+    def __init__(self, rng, nimports=None, bad_refs=True, ciphertexts=True, providers=True, nonobject_inputs=True,
+                 faulty=True):
+        self.rng = rng
+        self.sites = []
+        self.provs = {}
+        self.opts = dict(bad_refs=bad_refs, ciphertexts=ciphertexts, providers=providers, nonobject_inputs=nonobject_inputs,
+                         faulty=faulty)
+        self.nimports = rng.below(3) if nimports is None else nimports
+
+    def scalar(self):
+        r = self.rng
+        return r.choice([("str", r.choice(RSTRS)), ("num", r.choice(["1", "42", "0"])), ("bool", True), ("null",)])
+
+    def secret(self, env):
+        r = self.rng
+        if self.opts["ciphertexts"] and r.chance(1, 3):
+            k = r.below(6)
+            if k == 0:
+                return ("cipher", "bm90IGFuIGVudmVsb3Bl")      # valid base64, not an envelope
+            if k == 1:
+                return ("cipher", envelope_repr(b"!undecryptable"))
+            return ("cipher", envelope_repr(r.choice([b"ct-one", b"", b"zz", b"ct-" + str(r.below(9)).encode()])))
+        return ("secret", r.choice(["hunter2", "p4ss", "", "s e c"]))
+
+    def value(self, env, names, depth):
+        """an expression; `names` are top-level keys of this environment that exist so far"""
+        r = self.rng
+        k = r.below(14)
+        if depth <= 0 or k < 3:
+            return self.scalar()
+        if k == 3:
+            return self.secret(env)
+        if k == 4 and names:
+            return ("sym", [("name", r.choice(names))])
+        if k == 5 and self.opts["bad_refs"]:
+            return ("sym", [("name", r.choice(["nope", "missing"]))] + ([("name", "x")] if r.chance(1, 2) else []))
+        if k == 6:
+            return ("obj", [(kk, self.value(env, names, depth - 1)) for kk in r.shuffle(["p", "q", "r"])[: 1 + r.below(3)]])
+        if k == 7:
+            return ("arr", [self.value(env, names, depth - 1) for _ in range(r.below(3))])
+        if k == 8 and names:
+            return norm_interp([("pre-", [("name", r.choice(names))]), ("-post", None)])
+        if k == 9:
+            return ("join", ("str", ","), ("arr", [self.value(env, names, 0) for _ in range(r.below(3))]))
+        if k == 10:
+            return ("tojson", self.value(env, names, depth - 1))
+        if k == 11:
+            return ("tostring", self.value(env, names, depth - 1))
+        if k >= 12 and self.opts["providers"]:
+            return self.open(env, names, depth - 1)
+        return self.scalar()
+
+    def open(self, env, names, depth):
+        r = self.rng
+        pname = "p%s%d" % (env, len(self.sites))
+        site = {"prov": pname, "env": env, "literal_inputs": None}
+        self.sites.append(site)
+        in_kind = r.below(3)
+        props = {"region": "string", "n": "number", "cfg": "object", "tags": "array"}
+        literal_inputs = None
+        if self.opts["nonobject_inputs"] and r.chance(1, 12):
+            inputs = r.choice([("str", "hello"), ("arr", []), ("num", "3"), ("null",)])
+            in_s = "always" if r.chance(1, 2) else {"props": {"region": "string"}, "required": [], "closed": False}
+        else:
+            entries = []
+            lit = {}
+            all_lit = True
+            for kk in r.shuffle(["region", "n", "cfg", "tags", "extra"])[: 1 + r.below(4)]:
+                j = r.below(8)
+                if j < 3:
+                    good = {"region": ("str", r.choice(RSTRS)), "n": ("num", "7"), "cfg": ("obj", [("k", ("str", "v"))]),
+                            "tags": ("arr", [("str", "t")]), "extra": ("bool", True)}[kk]
+                    e = good if not r.chance(1, 6) else self.scalar()
+                elif j == 3:
+                    e = self.secret(env)
+                    all_lit = all_lit and e[0] == "secret"
+                elif j == 4 and names:
+                    e = ("sym", [("name", r.choice(names))])
+                    all_lit = False
+                elif j == 5 and self.opts["bad_refs"]:
+                    e = ("sym", [("name", "nope")])
+                    all_lit = False
+                elif j == 6 and depth > 0 and self.opts["providers"]:
+                    e = self.open(env, names, depth - 1)
+                    all_lit = False
+                else:
+                    e = self.scalar()
+                entries.append((kk, e))
+            inputs = ("obj", entries)
+            if in_kind == 0:
+                in_s = "always"
+            else:
+                in_s = {"props": {k: props[k] for k in r.shuffle(list(props))[: 1 + r.below(4)]},
+                        "required": (["region"] if r.chance(1, 2) else []), "closed": in_kind == 2 and CLOSED_OK}
+            if all_lit:
+                literal_inputs = entries
+        beh = r.below(6)
+        if beh == 0 and self.opts["faulty"]:
+            spec = {"in": in_s, "out": "always", "beh": "fail"}
+        elif beh <= 2:
+            spec = {"in": in_s, "out": "always", "beh": "echo"}
+        else:
+            const = gen_const_output(r)
+            spec = {"in": in_s, "out": out_schema_of(const) if r.chance(2, 3) else "always", "beh": "const", "const": const}
+        if not (self.opts["faulty"] and r.chance(1, 15)):
+            self.provs[pname] = spec
+        site["literal_inputs"] = literal_inputs
+        return ("open", pname, inputs)
+
+    def env_values(self, env, nkeys, depth):
+        vals, names = [], []
+        for i in range(nkeys):
+            k = "%s%d" % ("v", i)
+            vals.append((k, self.value(env, names, depth)))
+            names.append(k)
+        return vals
+
+    def world(self, depth=2):
+        r = self.rng
+        envs = {}
+        names = []
+        for i in range(self.nimports):
+            n = "e%d" % (i + 1)
+            imports = [(m, True) for m in names if r.chance(1, 3)]
+            envs[n] = {"imports": imports, "values": self.env_values(n, 1 + r.below(3), depth)}
+            names.append(n)
+        root_imports = [(m, not r.chance(1, 5)) for m in names if r.chance(3, 4)]
+        if names and r.chance(1, 4):
+            root_imports.append((r.choice(names), True))      # repeated import
+        envs["root"] = {"imports": root_imports, "values": self.env_values("root", 2 + r.below(4), depth)}
+        # references into imports
+        if root_imports and r.chance(1, 2):
+            m = r.choice(root_imports)[0]
+            envs["root"]["values"].append(("imp", ("sym", [("name", "imports"), ("name", m)])))
+        c = case_from_graph(envs, "root")
+        c["provs"] = self.provs
+        c["sites"] = self.sites
+        return c
+
+
+def lit_xval_wire(e, secret=False):
+    """wire xval of a literal expression (secrets flagged)"""
+    k = e[0]
+    f = "t" if secret else "f"
+    if k == "null":
+        return "(xs %s f null)" % f
+    if k == "bool":
+        return "(xs %s f (b %s))" % (f, "t" if e[1] else "f")
+    if k == "num":
+        return "(xs %s f (n %s))" % (f, sx(e[1]))
+    if k == "str":
+        return "(xs %s f (s %s))" % (f, sx(e[1]))
+    if k == "secret":
+        return "(xs t f (s %s))" % sx(e[1])
+    if k == "arr":
+        return "(xa %s f (%s))" % (f, " ".join(lit_xval_wire(x) for x in e[1]))
+    if k == "obj":
+        return "(xo %s f (%s))" % (f, " ".join("(%s %s)" % (sx(kk), lit_xval_wire(v)) for kk, v in sorted(e[1], key=lambda kv: kv[0].encode())))
+    raise ValueError(k)
